@@ -527,7 +527,8 @@ type sdCall struct {
 	Res    types.Object
 	MConst int
 	Val    types.Object
-	Mx     types.Object
+	Dig    digitInfo // which digit of which range variable is the maximal value
+	HasDig bool
 	Call   *ast.CallExpr
 }
 
@@ -597,196 +598,224 @@ func (w *World) parseLoopNest(m *scoreModel, add func(ok bool, rule, inst string
 		}
 		return 0
 	}
-	var body []ast.Stmt
-	cur := m.loop
-	for {
-		rs, ok := cur.(*ast.RangeStmt)
-		if !ok {
-			add(false, "R04.max", "Score.loops", cur, "loop nest is not a nest of range loops over the highest-severity vector tables: undecided")
-			return nil
+	rangeOf := map[types.Object]bool{}
+	unparen := func(e ast.Expr) ast.Expr {
+		for {
+			if pe, ok := e.(*ast.ParenExpr); ok {
+				e = pe.X
+				continue
+			}
+			return e
 		}
-		// X = T[a][b]
-		ix2, ok := rs.X.(*ast.IndexExpr)
-		var ri rangeInfo
-		ri.Stmt = rs
-		ri.Var = identObj(info, rs.Value)
-		okShape := ok && rs.Value != nil
-		if okShape {
-			ix1, ok := ix2.X.(*ast.IndexExpr)
-			if !ok {
-				okShape = false
-			} else {
-				tv, _ := identObj(info, ix1.X).(*types.Var)
-				ri.Table = tv
-				if c, isC := constUint(info, ix1.Index); isC {
-					ri.K = fmt.Sprint(c)
-					if eqIndex(identObj(info, ix2.Index)) != int(c) {
-						add(false, "R04.sibling", "Score.loops["+ri.K+"]", rs, fmt.Sprintf("the highest-severity vectors of EQ%d are selected with the level of another EQ", c))
+	}
+	// digitOf recognises the extraction of decimal digit k of a range variable:
+	// uint8((v % 10^(k+1)) / 10^k), uint8(v % 10), uint8((v / 10^k) % 10), with or without the conversion
+	digitOf := func(e ast.Expr) (types.Object, int, bool) {
+		e = unparen(e)
+		if call, ok := e.(*ast.CallExpr); ok {
+			if tv, isT := info.Types[call.Fun]; isT && tv.IsType() && len(call.Args) == 1 {
+				e = unparen(call.Args[0])
+			}
+		}
+		be, ok := e.(*ast.BinaryExpr)
+		if !ok {
+			return nil, 0, false
+		}
+		c, okc := constUint(info, be.Y)
+		if !okc {
+			return nil, 0, false
+		}
+		switch be.Op {
+		case token.REM:
+			// v % 10  |  (v / B) % 10
+			if c != 10 {
+				return nil, 0, false
+			}
+			x := unparen(be.X)
+			if o := identObj(info, x); o != nil && rangeOf[o] {
+				return o, 0, true
+			}
+			if q, ok := x.(*ast.BinaryExpr); ok && q.Op == token.QUO {
+				if b, ok := constUint(info, q.Y); ok && pow10(int64(b)) >= 0 {
+					if o := identObj(info, unparen(q.X)); o != nil && rangeOf[o] {
+						return o, pow10(int64(b)), true
 					}
-				} else if eqIndex(identObj(info, ix1.Index)) == 3 && eqIndex(identObj(info, ix2.Index)) == 6 {
-					ri.K = "36"
-				} else {
-					okShape = false
+				}
+			}
+		case token.QUO:
+			// (v % A) / B with A == 10*B
+			x := unparen(be.X)
+			if r, ok := x.(*ast.BinaryExpr); ok && r.Op == token.REM {
+				if a, ok := constUint(info, r.Y); ok && a == 10*c && pow10(int64(c)) >= 0 {
+					if o := identObj(info, unparen(r.X)); o != nil && rangeOf[o] {
+						return o, pow10(int64(c)), true
+					}
 				}
 			}
 		}
-		if !okShape || ri.Table == nil || ri.Var == nil {
-			add(false, "R04.max", "Score.loops", rs, "range expression is not table[EQ][level]: undecided")
-			return nil
-		}
-		ln.Ranges = append(ln.Ranges, ri)
-		if len(rs.Body.List) == 1 {
-			if _, isR := rs.Body.List[0].(*ast.RangeStmt); isR {
-				cur = rs.Body.List[0]
-				continue
-			}
-		}
-		body = rs.Body.List
-		break
+		return nil, 0, false
 	}
-	rangeOf := map[types.Object]bool{}
-	for _, r := range ln.Ranges {
-		rangeOf[r.Var] = true
-	}
-	sawBreak := false
-	for _, s := range body {
-		switch st := s.(type) {
-		case *ast.AssignStmt:
-			if len(st.Lhs) != 1 || len(st.Rhs) != 1 {
-				add(false, "R04.max", "Score.loopbody", s, "multi-assignment in the loop body: undecided")
-				return nil
+	okAll := true
+	var walk func(stmts []ast.Stmt)
+	walk = func(stmts []ast.Stmt) {
+		for _, s := range stmts {
+			if !okAll {
+				return
 			}
-			lo := identObj(info, st.Lhs[0])
-			// digit decode: uint8((rv % A) / B)
-			if call, ok := st.Rhs[0].(*ast.CallExpr); ok {
-				if tv, isT := info.Types[call.Fun]; isT && tv.IsType() && len(call.Args) == 1 {
-					var rv types.Object
-					var A, B int64 = -1, -1
-					e := ast.Expr(call.Args[0])
-					for {
-						if pe, ok := e.(*ast.ParenExpr); ok {
-							e = pe.X
+			switch st := s.(type) {
+			case *ast.RangeStmt:
+				ix2, ok := st.X.(*ast.IndexExpr)
+				var ri rangeInfo
+				ri.Stmt = st
+				ri.Var = identObj(info, st.Value)
+				okShape := ok && st.Value != nil
+				if okShape {
+					ix1, ok := ix2.X.(*ast.IndexExpr)
+					if !ok {
+						okShape = false
+					} else {
+						tv, _ := identObj(info, ix1.X).(*types.Var)
+						ri.Table = tv
+						if c, isC := constUint(info, ix1.Index); isC {
+							ri.K = fmt.Sprint(c)
+							if eqIndex(identObj(info, ix2.Index)) != int(c) {
+								add(false, "R04.sibling", "Score.loops["+ri.K+"]", st, fmt.Sprintf("the highest-severity vectors of EQ%d are selected with the level of another EQ", c))
+							}
+						} else if eqIndex(identObj(info, ix1.Index)) == 3 && eqIndex(identObj(info, ix2.Index)) == 6 {
+							ri.K = "36"
+						} else {
+							okShape = false
+						}
+					}
+				}
+				if !okShape || ri.Table == nil || ri.Var == nil {
+					add(false, "R04.max", "Score.loops", st, "range expression is not table[EQ][level]: undecided")
+					okAll = false
+					return
+				}
+				ln.Ranges = append(ln.Ranges, ri)
+				rangeOf[ri.Var] = true
+				walk(st.Body.List)
+			case *ast.AssignStmt:
+				if len(st.Lhs) != 1 || len(st.Rhs) != 1 {
+					add(false, "R04.max", "Score.loopbody", s, "multi-assignment in the loop body: undecided")
+					okAll = false
+					return
+				}
+				lo := identObj(info, st.Lhs[0])
+				if rv, pos, ok := digitOf(st.Rhs[0]); ok {
+					ln.Digit[lo] = digitInfo{rv, pos}
+					continue
+				}
+				if call, ok := st.Rhs[0].(*ast.CallExpr); ok {
+					if fn := calleeOf(info, call); fn != nil && len(call.Args) == 3 {
+						mc, okc := constUint(info, call.Args[0])
+						vo := identObj(info, call.Args[1])
+						if okc && vo != nil {
+							sd := sdCall{Res: lo, MConst: int(mc), Val: vo, Call: call}
+							if mo := identObj(info, call.Args[2]); mo != nil {
+								if dg, has := ln.Digit[mo]; has {
+									sd.Dig, sd.HasDig = dg, true
+								}
+							} else if rv, pos, ok := digitOf(call.Args[2]); ok {
+								sd.Dig, sd.HasDig = digitInfo{rv, pos}, true
+							}
+							ln.SD = append(ln.SD, sd)
 							continue
 						}
-						break
-					}
-					if q, ok := e.(*ast.BinaryExpr); ok && q.Op == token.QUO {
-						if b, ok := constUint(info, q.Y); ok {
-							B = int64(b)
-						}
-						x := q.X
-						for {
-							if pe, ok := x.(*ast.ParenExpr); ok {
-								x = pe.X
-								continue
-							}
-							break
-						}
-						if r, ok := x.(*ast.BinaryExpr); ok && r.Op == token.REM {
-							if a, ok := constUint(info, r.Y); ok {
-								A = int64(a)
-							}
-							rv = identObj(info, r.X)
-						}
-					}
-					if rv != nil && rangeOf[rv] && B > 0 && A == 10*B && pow10(B) >= 0 {
-						ln.Digit[lo] = digitInfo{rv, pow10(B)}
-						continue
-					}
-					add(false, "R04.max", "Score.loopbody", s, "digit extraction is not uint8((v % 10^(k+1)) / 10^k): undecided")
-					return nil
-				}
-				// severityDistance(m, val, mx)
-				if fn := calleeOf(info, call); fn != nil && len(call.Args) == 3 {
-					mc, okc := constUint(info, call.Args[0])
-					vo, mo := identObj(info, call.Args[1]), identObj(info, call.Args[2])
-					if okc && vo != nil && mo != nil {
-						ln.SD = append(ln.SD, sdCall{Res: lo, MConst: int(mc), Val: vo, Mx: mo, Call: call})
-						continue
 					}
 				}
-			}
-			// sums
-			if r, okc := exactConst(info, st.Rhs[0]); okc && r.Sign() == 0 {
-				ln.Zero[lo] = true
-				continue
-			}
-			var parts []types.Object
-			okSum := true
-			var collect func(e ast.Expr)
-			collect = func(e ast.Expr) {
-				switch x := e.(type) {
-				case *ast.ParenExpr:
-					collect(x.X)
-				case *ast.BinaryExpr:
-					if x.Op != token.ADD {
-						okSum = false
-						return
-					}
-					collect(x.X)
-					collect(x.Y)
-				case *ast.Ident:
-					parts = append(parts, identObj(info, x))
-				default:
-					okSum = false
+				if r, okc := exactConst(info, st.Rhs[0]); okc && r.Sign() == 0 {
+					ln.Zero[lo] = true
+					continue
 				}
-			}
-			collect(st.Rhs[0])
-			if okSum && len(parts) > 0 {
-				ln.Sums[lo] = parts
-				continue
-			}
-			add(false, "R04.max", "Score.loopbody", s, "assignment outside the loop-body language: undecided")
-			return nil
-		case *ast.IfStmt:
-			// if a < 0 || b < 0 ... { continue }
-			okG := st.Init == nil && st.Else == nil && len(st.Body.List) == 1
-			if okG {
-				br, isBr := st.Body.List[0].(*ast.BranchStmt)
-				okG = isBr && br.Tok == token.CONTINUE && br.Label == nil
-			}
-			var collect func(e ast.Expr)
-			collect = func(e ast.Expr) {
-				switch x := e.(type) {
-				case *ast.ParenExpr:
-					collect(x.X)
-				case *ast.BinaryExpr:
-					if x.Op == token.LOR {
+				var parts []types.Object
+				okSum := true
+				var collect func(e ast.Expr)
+				collect = func(e ast.Expr) {
+					switch x := e.(type) {
+					case *ast.ParenExpr:
+						collect(x.X)
+					case *ast.BinaryExpr:
+						if x.Op != token.ADD {
+							okSum = false
+							return
+						}
 						collect(x.X)
 						collect(x.Y)
-						return
+					case *ast.Ident:
+						parts = append(parts, identObj(info, x))
+					default:
+						okSum = false
 					}
-					if x.Op == token.LSS {
-						if r, okc := exactConst(info, x.Y); okc && r.Sign() == 0 {
-							if o := identObj(info, x.X); o != nil {
-								ln.Guard[o] = true
-								return
+				}
+				collect(st.Rhs[0])
+				if okSum && len(parts) > 0 {
+					ln.Sums[lo] = parts
+					continue
+				}
+				add(false, "R04.max", "Score.loopbody", s, "assignment outside the loop-body language: undecided")
+				okAll = false
+				return
+			case *ast.IfStmt:
+				okG := st.Init == nil && st.Else == nil && len(st.Body.List) == 1
+				if okG {
+					br, isBr := st.Body.List[0].(*ast.BranchStmt)
+					okG = isBr && br.Tok == token.CONTINUE && br.Label == nil
+				}
+				var collect func(e ast.Expr)
+				collect = func(e ast.Expr) {
+					switch x := e.(type) {
+					case *ast.ParenExpr:
+						collect(x.X)
+					case *ast.BinaryExpr:
+						if x.Op == token.LOR {
+							collect(x.X)
+							collect(x.Y)
+							return
+						}
+						if x.Op == token.LSS {
+							if r, okc := exactConst(info, x.Y); okc && r.Sign() == 0 {
+								if o := identObj(info, x.X); o != nil {
+									ln.Guard[o] = true
+									return
+								}
 							}
 						}
+						okG = false
+					default:
+						okG = false
 					}
-					okG = false
-				default:
-					okG = false
 				}
+				collect(st.Cond)
+				if !okG {
+					add(false, "R04.max", "Score.loopbody", s, "conditional in the loop nest is not an `any distance < 0 → continue` filter: undecided")
+					okAll = false
+					return
+				}
+			case *ast.BranchStmt:
+				if st.Tok == token.BREAK && st.Label == nil {
+					continue
+				}
+				add(false, "R04.max", "Score.loopbody", s, "unexpected branch statement: undecided")
+				okAll = false
+				return
+			case *ast.EmptyStmt:
+			default:
+				add(false, "R04.max", "Score.loopbody", s, fmt.Sprintf("statement %T outside the loop-nest language: undecided", s))
+				okAll = false
+				return
 			}
-			collect(st.Cond)
-			if !okG {
-				add(false, "R04.max", "Score.loopbody", s, "conditional in the loop body is not the `any distance < 0 → continue` filter: undecided")
-				return nil
-			}
-		case *ast.BranchStmt:
-			if st.Tok == token.BREAK && st.Label == nil {
-				sawBreak = true
-				continue
-			}
-			add(false, "R04.max", "Score.loopbody", s, "unexpected branch statement: undecided")
-			return nil
-		default:
-			add(false, "R04.max", "Score.loopbody", s, fmt.Sprintf("statement %T outside the loop-body language: undecided", s))
-			return nil
 		}
 	}
-	_ = sawBreak
+	if _, isRange := m.loop.(*ast.RangeStmt); !isRange {
+		add(false, "R04.max", "Score.loops", m.loop, "loop nest is not a nest of range loops over the highest-severity vector tables: undecided")
+		return nil
+	}
+	walk([]ast.Stmt{m.loop})
+	if !okAll {
+		return nil
+	}
 	w.checkLoopNest(m, ln, add)
 	return ln
 }
